@@ -323,4 +323,43 @@ theorem erase_loop_empties [DecidableEq κ] (c : Cfg κ) (n : Nat) (t : Table κ
       have hinv : Inv c (t.ltEraseAt c (t.cur.itBegin c.S)).1 := (delFrom_spec c t _ _ sl h hg).1
       have hlen := ltEraseAt_iteration_length c t (t.cur.itBegin c.S) sl h hg
       exact ih _ hinv (by omega)
+
+/-- a fully migrated table whose iteration is empty represents the empty map -/
+theorem map_empty_of_no_iteration [DecidableEq κ] (c : Cfg κ) (t : Table κ ν) (m : AMap κ ν) (h : Inv c t) (hr : Rel c t m)
+    (hl : AllMig t) (he : t.cur.traverse c.S = []) : m = [] := by
+  apply List.eq_nil_iff_forall_not_mem.mpr
+  rintro ⟨k, v⟩ hm
+  obtain ⟨p, hp, _⟩ := (iteration_matches_map c t m h hr hl k v).mp hm
+  rw [he] at hp
+  cases hp
+
+/-- the erase loop, seen through the abstraction: it ends with the empty map -/
+theorem erase_loop_map_empty [DecidableEq κ] (c : Cfg κ) (n : Nat) (t : Table κ ν) (m : AMap κ ν) (h : Inv c t)
+    (hr : Rel c t m) (hl : AllMig t) (hn : (t.cur.traverse c.S).length ≤ n) :
+    Rel c (eraseAll c n t) [] ∧ AllMig (eraseAll c n t) := by
+  induction n generalizing t m with
+  | zero =>
+    have he : t.cur.traverse c.S = [] := List.eq_nil_of_length_eq_zero (Nat.le_zero.mp hn)
+    have := map_empty_of_no_iteration c t m h hr hl he
+    subst this
+    exact ⟨hr, hl⟩
+  | succ n ih =>
+    unfold eraseAll
+    split
+    · rename_i heq
+      have he : t.cur.traverse c.S = [] := by
+        apply List.eq_nil_iff_forall_not_mem.mpr
+        intro p hp
+        obtain ⟨sl, hg⟩ := (Store.mem_traverse c.S t.cur h.S_pos h.cur_wf.size p.1 p.2).mp hp
+        have := (Store.begin_eq_end_iff c.S t.cur h.S_pos h.cur_wf.size).mp heq p.1 p.2
+        rw [this] at hg
+        cases hg
+      have := map_empty_of_no_iteration c t m h hr hl he
+      subst this
+      exact ⟨hr, hl⟩
+    · rename_i hne
+      obtain ⟨sl, hg⟩ := begin_occupied c.S t.cur h.S_pos hne
+      obtain ⟨hinv, hl', hr', _⟩ := ltEraseAt_spec c t m (t.cur.itBegin c.S) sl h hr hl hg
+      have hlen := ltEraseAt_iteration_length c t (t.cur.itBegin c.S) sl h hg
+      exact ih _ _ hinv hr' hl' (by omega)
 end Cuckoo.Props.C09
